@@ -71,11 +71,22 @@ Section WireProofs.
   Definition package_keeps_vary : Prop :=
     forall r hs, assoc (B "vary") (package r hs) = assoc (B "vary") hs.
 
-  (** the response [handle_cache] returned is replaced by the 416 page *)
+  (** the response [handle_cache] returned is replaced by the 416 page: never a 304 (repair 9ae9b1a), and the
+      range is applied to the body [send] keeps (none after 1xx / 204 / 304) *)
   Definition replaced (san : option (option (N * N))) (rp : reply) : Prop :=
-    exists rg e, san = Some rg /\ apply_range true rg (rp_status rp) (rp_body rp) = Err e.
+    exists rg e, san = Some rg /\ (rp_status rp =? 304) = false /\
+                 apply_range true rg (rp_status rp) (send_body rp) = Err e.
 
   Notation sendX := (send_v rules_of package err416_body).
+
+  Lemma send_body_nonempty rp : send_body rp <> [] -> rp_body rp <> [].
+  Proof. unfold send_body. destruct (no_body_status (rp_status rp)); [intros H; contradiction H; reflexivity | auto]. Qed.
+
+  (** a 304 goes out as it is, whatever the range header says *)
+  Lemma send_not_modified fixed r san rp :
+    rp_status rp = 304 ->
+    sendX fixed r san rp = Ok (mkW 304 (package r (rp_headers rp)) [] (rp_last_modified rp)).
+  Proof. intros H. unfold send_v, send_body. rewrite H. reflexivity. Qed.
 
   (** [send_keeps_vary]: whenever the response is not replaced — repaired code or not —, the [vary] header
       on the wire is the one [handle_cache] set, and a non-empty body on the wire comes from a non-empty body *)
@@ -83,15 +94,17 @@ Section WireProofs.
     package_keeps_vary -> sendX fixed r san rp = Ok w -> ~ replaced san rp ->
     assoc (B "vary") (w_headers w) = assoc (B "vary") (rp_headers rp) /\ (w_body w <> [] -> rp_body rp <> []).
   Proof.
-    intros Hp E Hn. unfold send_v in E. destruct san as [rg|].
-    - destruct (apply_range true rg (rp_status rp) (rp_body rp)) as [x|e|] eqn:A.
+    intros Hp E Hn. unfold send_v in E. destruct (rp_status rp =? 304) eqn:E304.
+    { inversion E; subst w. cbn [w_headers w_body]. rewrite Hp. split; [reflexivity | apply send_body_nonempty]. }
+    destruct san as [rg|].
+    - destruct (apply_range true rg (rp_status rp) (send_body rp)) as [x|e|] eqn:A.
       + inversion E; subst w; clear E. cbn [w_headers w_body]. rewrite Hp. split.
         * destruct (r_accept_ranges x); [rewrite assoc_hm_insert_other by reflexivity|];
             (destruct (r_content_range x); [rewrite assoc_hm_insert_other by reflexivity|]; reflexivity).
-        * apply (apply_range_body _ _ _ _ A).
+        * intros Hb. apply send_body_nonempty. apply (apply_range_body _ _ _ _ A Hb).
       + exfalso. apply Hn. exists rg, e. auto.
       + discriminate.
-    - inversion E; subst w. cbn [w_headers w_body]. rewrite Hp. auto.
+    - inversion E; subst w. cbn [w_headers w_body]. rewrite Hp. split; [reflexivity | apply send_body_nonempty].
   Qed.
 
   (** the replacement: status 416, the error page, and — repaired code — the page's [vary] header *)
@@ -100,7 +113,7 @@ Section WireProofs.
     w_status w = 416 /\ w_body w = err416_body /\
     (err416_body <> [] -> assoc (B "vary") (w_headers w) = Some (vary_text (rules_of (rq_path r)))).
   Proof.
-    intros Hp E (rg & e & -> & A). unfold send_v in E. rewrite A in E. inversion E; subst w.
+    intros Hp E (rg & e & -> & E304 & A). unfold send_v in E. rewrite E304, A in E. inversion E; subst w.
     cbn [w_status w_body w_headers]. split; [reflexivity|]. split; [reflexivity|].
     intros Hb. rewrite Hp. apply apply_header_settings. exact Hb.
   Qed.
@@ -113,7 +126,7 @@ Section WireProofs.
     served_ok hstate compute ims_on negotiate rules_of r rp calls ->
     rp_body rp <> [] -> assoc (B "vary") (rp_headers rp) = Some (vary_text (rules_of (rq_path r))).
   Proof.
-    intros [[_ [(_ & Hb & _) | (f & r1 & _ & _ & _ & ->)]] | [_ (f & lm & cached & _ & ->)]] Hne.
+    intros [[_ (f & r1 & _ & _ & _ & [(_ & Hb & _) | ->])] | [_ (f & lm & cached & _ & ->)]] Hne.
     - congruence.
     - apply (proj1 (finishV_vary negotiate rules_of r f ims_on true)). exact Hne.
     - apply (proj1 (finishV_vary negotiate rules_of r f lm cached)). exact Hne.
@@ -130,10 +143,12 @@ Section WireProofs.
     intros Hp Hs E Hne.
     assert (D : replaced san rp \/ ~ replaced san rp).
     { unfold replaced. destruct san as [rg|].
-      - destruct (apply_range true rg (rp_status rp) (rp_body rp)) as [x|e|] eqn:A.
-        + right. intros (rg' & e & Heq & A'). inversion Heq; subst. congruence.
+      - destruct (rp_status rp =? 304) eqn:E304.
+        { right. intros (rg' & e & _ & Hf & _). discriminate. }
+        destruct (apply_range true rg (rp_status rp) (send_body rp)) as [x|e|] eqn:A.
+        + right. intros (rg' & e & Heq & _ & A'). inversion Heq; subst. congruence.
         + left. eauto.
-        + right. intros (rg' & e & Heq & A'). inversion Heq; subst. congruence.
+        + right. intros (rg' & e & Heq & _ & A'). inversion Heq; subst. congruence.
       - right. intros (rg & e & Heq & _). discriminate. }
     destruct D as [Hr | Hn].
     - destruct (send_replaced_lemma r san rp w Hp E Hr) as (_ & Hb & Hv). apply Hv. rewrite <- Hb. exact Hne.
@@ -211,8 +226,9 @@ Proof.
 Qed.
 
 (** ------------------------------------------------------------------------------------------
-    If-Modified-Since and variants: the 304 is decided on the date of the cache *entry* before the variant
-    vector is looked at.
+    If-Modified-Since and variants: since the repair 832d735 the 304 needs a fresh date for the cache *entry*
+    AND the request's own variant in that entry (before: the date alone, decided before the variant vector was
+    looked at).
     ------------------------------------------------------------------------------------------ *)
 Lemma get_by_request_same_tuple {A} (v : varied A) r r1 :
   headers_for_request (vr_refs v) r = headers_for_request (vr_refs v) r1 ->
@@ -239,21 +255,57 @@ Section Ims.
   Definition reply304 : reply :=
     {| rp_status := 304; rp_headers := []; rp_body := []; rp_identity := []; rp_last_modified := ims_on; rp_from_cache := true |}.
 
-  (** the condition under which it is sent: an entry for the request's key, a request that passed sanitize,
-      GET or HEAD, and a date not older than the *entry's* creation minus one second.  Nothing about the
-      request's own transformed tuple: *)
+  (** the date condition: an entry for the request's key, a request that passed sanitize, GET or HEAD, and a date
+      not older than the *entry's* creation minus one second *)
   Definition ims_hit (c : vcache) (now : N) (r0 : request) (k : key) (e : ventry) (c1 : vcache) : Prop :=
     cache_on = true /\ ims_on = true /\ vlookup (prime r0) c now = ((k, Some e), c1) /\
     sanitize_ok r0 = true /\ get_or_head (rq_method (prime r0)) = true /\
     exists v t, header (B "if-modified-since") (prime r0) = Some v /\ parse_ims v = Some t /\
                 ims_fresh t (ve_created e) = true.
 
-  Lemma not_modified_before_lookup c hs now r0 k e c1 :
-    ims_hit c now r0 k e c1 -> serveX (c, hs) now r0 = Ok ((c1, hs), reply304, [], []).
+  (** before the repair 832d735 that was all: the 304 was sent whatever the request's own transformed tuple *)
+  Lemma not_modified_before_lookup_v0 c hs now r0 k e c1 :
+    ims_hit c now r0 k e c1 ->
+    serveV_phase1_v0 hstate cache_on ims_on parse_ims sanitize_ok prime negotiate (c, hs) now r0
+    = Ok (inl ((c1, hs), reply304, [], [])).
   Proof.
     intros (Hc & Hi & L & Hs & Hg & v & t & Hh & Hp & Hf).
-    unfold serveV, serveV_phase1. rewrite Hc. cbn [negb]. rewrite L, Hs, Hg. cbn [andb].
+    unfold serveV_phase1_v0, serveV_phase1_gen. rewrite Hc. cbn [negb]. rewrite L, Hs, Hg. cbn [andb].
     rewrite Hi, Hh, Hp, Hf. unfold reply304. rewrite Hi. reflexivity.
+  Qed.
+
+  Lemma miss_headers {A} (v : varied A) r pos hc :
+    vr_get_by_request v r = Ok (Miss pos hc) -> hc = headers_for_request (vr_refs v) r.
+  Proof.
+    unfold vr_get_by_request. destruct (vr_get v (headers_for_request (vr_refs v) r)) as [[i|i]|e|]; try discriminate.
+    - destruct (nth_error (vr_resps v) i); discriminate.
+    - intros H; inversion H; reflexivity.
+  Qed.
+
+  (** the repaired code: with a fresh date the 304 is sent when the entry holds the variant the request selects — and
+      only then: a request whose own transformed tuple is not in the entry runs the handler and gets the response
+      computed for itself *)
+  Lemma not_modified_needs_variant c hs now r0 k e c1 :
+    InvV hstate compute rules_of c -> ims_hit c now r0 k e c1 ->
+    (forall p, vr_get_by_request (ve_var e) (prime r0) = Ok (Hit p) ->
+               serveX (c, hs) now r0 = Ok ((c1, hs), reply304, [], [])) /\
+    (forall pos hc, vr_get_by_request (ve_var e) (prime r0) = Ok (Miss pos hc) ->
+       exists st' rp lg, serveX (c, hs) now r0 = Ok (st', rp, lg, [prime r0]) /\
+                         own_reply hstate compute negotiate rules_of (prime r0) rp).
+  Proof.
+    intros I (Hc & Hi & L & Hs & Hg & v & t & Hh & Hp & Hf). split.
+    - intros [f vary] Hhit.
+      unfold serveV, serveV_phase1, serveV_phase1_gen. rewrite Hc. cbn [negb]. rewrite L, Hs, Hg. cbn [andb].
+      cbv zeta. rewrite Hi, Hh, Hp, Hf, Hhit. cbn [negb orb andb]. unfold reply304. rewrite Hi. reflexivity.
+    - intros pos hc Hmiss.
+      destruct (vlookup_inv hstate compute rules_of _ _ _ _ _ _ L I) as (I1 & Hk & Hent).
+      destruct (Hent e eq_refl) as (_ & _ & Hrefs & _).
+      assert (Hpk : parked_ok rules_of (PkVary (prime r0) true k pos hc)).
+      { cbn [parked_ok]. split; [exact Hk|]. rewrite (miss_headers _ _ _ _ Hmiss), Hrefs, Hk. reflexivity. }
+      destruct (phase2_ok hstate compute cache_on ims_on negotiate rules_of dbg c1 hs now _ I1 Hpk) as (st' & rp & lg & E & _ & Ho & _).
+      exists st', rp, lg. split; [|exact Ho].
+      unfold serveV, serveV_phase1, serveV_phase1_gen. rewrite Hc. cbn [negb]. rewrite L, Hs, Hg. cbn [andb].
+      cbv zeta. rewrite Hmiss, andb_false_r. cbn [snd]. rewrite Hc in E. exact E.
   Qed.
 
   (** ... but the 304 tells the truth to every client whose copy came out of the entry it is decided on:
@@ -336,23 +388,30 @@ Section Ims.
       destruct found' as [e'|].
       + destruct (vr_get_by_request (ve_var e') r) as [[p0 | position' headers'] | e | ]; try discriminate.
         * intros H; inversion H; subst. exact D.
-        * destruct (vr_push dbg (ve_var e') f position' headers') as [[vr' [f1 vary1]] | e | ]; try discriminate.
-          intros H; inversion H; subst. cbn [fst]. eapply dated_trans; [exact D|]. apply dated_insert. reflexivity.
+        * cbv zeta.
+          destruct (wants_cache cache_on (rq_method r) f && (negb (f_spref f =? SP_QUERY) || key_has_query k')
+                    && negb (kvarn_none f)).
+          2:{ intros H; inversion H; subst. exact D. }
+          destruct (vr_push dbg (ve_var e') f position' headers') as [[vr' [f1 vary1]] | e | ]; try discriminate.
+          intros H; inversion H; subst. cbn [fst]. eapply dated_trans; [exact D|].
+          destruct (N.of_nat (length (f_body f)) <? size_limit); [apply dated_insert; reflexivity | apply dated_refl].
       + intros H. eapply dated_trans; [exact D|]. eapply dated_new_and_cache. exact H.
   Qed.
 
   Lemma dated_serve c hs now r0 st' rp lg calls :
     serveX (c, hs) now r0 = Ok (st', rp, lg, calls) -> dated now c (fst st').
   Proof.
-    unfold serveV, serveV_phase1. destruct (negb cache_on) eqn:Hc; cbn [snd].
+    unfold serveV, serveV_phase1, serveV_phase1_gen. destruct (negb cache_on) eqn:Hc; cbn [snd].
     { intros H. eapply dated_phase2. exact H. }
     destruct (vlookup (prime r0) c now) as [[k found0] c1] eqn:L. pose proof (dated_vlookup now now _ c _ _ L) as D.
     destruct found0 as [e|].
     2:{ intros H. eapply dated_trans; [exact D|]. eapply dated_phase2. exact H. }
     destruct (sanitize_ok r0 && get_or_head (rq_method (prime r0))).
     2:{ intros H. eapply dated_trans; [exact D|]. eapply dated_phase2. exact H. }
+    cbv zeta.
     destruct (match (if ims_on then match header (B "if-modified-since") (prime r0) with Some v => parse_ims v | None => None end else None)
-              with Some t => ims_fresh t (ve_created e) | None => false end).
+              with Some t => ims_fresh t (ve_created e) | None => false end
+              && (negb true || match vr_get_by_request (ve_var e) (prime r0) with Ok (Hit _) => true | _ => false end)).
     { intros H; inversion H; subst. exact D. }
     destruct (vr_get_by_request (ve_var e) (prime r0)) as [[[f vary] | position headers] | e0 | ]; try discriminate.
     - intros H; inversion H; subst. exact D.
@@ -366,13 +425,16 @@ Section Ims.
     - destruct (serveX (c, hs) now r) as [[[[st1 rp] lg] cl] | e | ] eqn:S; try discriminate.
       intros H; inversion H; subst. eapply dated_serve. exact S.
     - intros H; inversion H; subst. cbn [fst]. unfold vclear_page.
-      eapply dated_trans; apply dated_remove.
+      assert (DU : forall r1 c1, dated now' c1 (vclear_uri r1 c1))
+        by (intros r1 c1; unfold vclear_uri; eapply dated_trans; apply dated_remove).
+      destruct (redirect_target r); [eapply dated_trans; apply DU | apply DU].
     - intros H; inversion H; subst. cbn [fst]. intros k. right. left. reflexivity.
     - intros H; inversion H; subst. apply dated_refl.
   Qed.
 End Ims.
 
-(** the 304 for a transformed tuple the server never computed (replayed on the real code):
+(** the 304 for a transformed tuple the server never computed (observed on the real code before the repair 832d735;
+    the repaired code computes it):
     GET /v x-a:a; GET /v x-a:zz if-modified-since: start + 100 s; dump; GET /v x-a:zz *)
 Definition ims_history : xval :=
   XL [ XL [ XL [XB (B "cache"); XN 1]; XL [XB (B "default_ext"); XN 0];
@@ -386,13 +448,20 @@ Definition ims_history : xval :=
                 XL [XL [XB (B "x-a"); XB (B "zz")]; XL [XB (B "if-modified-since"); XB (B "@T+100")]]; XB []];
             XL [XN 4; XB (B "/v")];
             XL [XN 0; XN 1; XB (B "GET"); XB (B "/v"); XL [XL [XB (B "x-a"); XB (B "zz")]]; XB []] ] ].
-Definition ims_history_out : xval :=
+(** before the repair: 304, nothing computed, the dump shows the only stored variant *)
+Definition ims_history_out_v0 : xval :=
   XL [ XL [XN 200; XL [XL [XB (B "vary"); XB (B "accept-encoding, range, x-a")]]; XB (B "T0|a"); XN 1; XB (B "T0|a"); XL [XB (B "h0")]];
        XL [XN 304; XL []; XB []; XN 1; XB []; XL []];
        XL [XL []; XL [XL [XL [XL [XB (B "x-a"); XB (B "a")]]]]];
        XL [XN 200; XL [XL [XB (B "vary"); XB (B "accept-encoding, range, x-a")]]; XB (B "T0|zz"); XN 1; XB (B "T0|zz"); XL [XB (B "h0")]] ].
-Lemma ims_unselected_variant : run_vary ims_history = ims_history_out.
-Proof. vm_compute. reflexivity. Qed.
+(** the repaired code: the variant is computed and stored; the last request is a hit *)
+Definition ims_history_out : xval :=
+  XL [ XL [XN 200; XL [XL [XB (B "vary"); XB (B "accept-encoding, range, x-a")]]; XB (B "T0|a"); XN 1; XB (B "T0|a"); XL [XB (B "h0")]];
+       XL [XN 200; XL [XL [XB (B "vary"); XB (B "accept-encoding, range, x-a")]]; XB (B "T0|zz"); XN 1; XB (B "T0|zz"); XL [XB (B "h0")]];
+       XL [XL []; XL [XL [XL [XL [XB (B "x-a"); XB (B "a")]]; XL [XL [XB (B "x-a"); XB (B "zz")]]]]];
+       XL [XN 200; XL [XL [XB (B "vary"); XB (B "accept-encoding, range, x-a")]]; XB (B "T0|zz"); XN 1; XB (B "T0|zz"); XL []] ].
+Lemma ims_unselected_variant_v0 : run_vary_ims_v0 ims_history = ims_history_out_v0 /\ run_vary ims_history = ims_history_out.
+Proof. split; vm_compute; reflexivity. Qed.
 
 (** ------------------------------------------------------------------------------------------
     If-Modified-Since over histories: a client that sends back the date it was given for the same URL and
@@ -451,8 +520,10 @@ Section Honest.
         * lia.
         * (* a clear only removes *)
           destruct st as [c hs]. cbn [stepV] in S. inversion S; subst. cbn [fst] in *.
-          unfold vclear_page in E. rewrite !pc_find_remove in E.
-          destruct (key_eqb k (key_p r)); [discriminate|]. destruct (key_eqb k (key_pq r)); [discriminate|]. exact E.
+          assert (RM : forall r1 c1, pc_find k (vclear_uri r1 c1) = Some e -> pc_find k c1 = Some e).
+          { intros r1 c1 E1. unfold vclear_uri in E1. rewrite !pc_find_remove in E1.
+            destruct (key_eqb k (key_p r1)); [discriminate|]. destruct (key_eqb k (key_pq r1)); [discriminate|]. exact E1. }
+          unfold vclear_page in E. destruct (redirect_target r); [apply RM in E|]; apply RM in E; exact E.
         * destruct st as [c hs]. cbn [stepV] in S. inversion S; subst. cbn [fst pc_find] in E. discriminate.
         * cbn [stepV] in S. inversion S; subst. exact E.
   Qed.
@@ -541,25 +612,38 @@ Section Honest.
     - unfold vfind in Hv. cbn [find snd] in Hv. rewrite hc_eqb_refl in Hv. discriminate.
   Qed.
   (** ... or computed and pushed into the entry it missed in (the date it is given is the old entry's; the
-      entry that now holds its variant is dated with the time of the step) *)
+      entry that now holds its variant is dated with the time of the step) — when the variant is admitted to the
+      cache (repairs 8fe98d4, 92a9cd2); one that is not is served and the cache left as it was: the entry does
+      not hold the client's tuple, and a later conditional request is recomputed ([not_modified_needs_variant]) *)
+  Definition variant_accepted (k : key) (r : request) (f : fat) : bool :=
+    wants_cache cache_on (rq_method r) f && (negb (f_spref f =? SP_QUERY) || key_has_query k) && negb (kvarn_none f)
+    && (N.of_nat (length (f_body f)) <? size_limit).
+
   Lemma pushed_gives_copy c hs now r ok k e position headers st' rp lg calls :
     InvV hstate compute rules_of c -> (k = key_pq r \/ k = key_p r) ->
     pc_find k c = Some e -> vfresh e now = true -> ve_created e <= now ->
     vr_get_by_request (ve_var e) r = Ok (Miss position headers) ->
     vary_missing hstate compute cache_on ims_on negotiate rules_of dbg c hs now r ok k position headers = Ok (st', rp, lg, calls) ->
     let f := fst (fst (compute hs r ok)) in
-    holds_copy (fst st') r f (ve_created e) /\ rp = finishV negotiate r f (own r) ims_on true.
+    rp = finishV negotiate r f (own r) ims_on true /\
+    (if variant_accepted k r f then holds_copy (fst st') r f (ve_created e) else fst st' = c).
   Proof.
-    intros I Hk F Fr Hd Hmiss. unfold vary_missing.
+    intros I Hk F Fr Hd Hmiss. unfold vary_missing, variant_accepted.
     destruct (compute hs r ok) as [[f hs'] lg0] eqn:C. cbn [fst].
     assert (L : vrelookup k c now = ((k, Some e), c)) by (unfold vrelookup, vget_item; rewrite F, Fr; reflexivity).
     rewrite L. destruct (I k e F) as (S & _ & Hrefs & _).
     assert (Hkp : kpath k = rq_path r) by (destruct Hk as [-> | ->]; [apply kpath_pq | apply kpath_p]).
     destruct (get_by_request_sorted (ve_var e) r S) as [(f0 & _ & _ & Eg) | (_ & LL & G & El & Eg & FL & FG)]; [congruence|].
-    rewrite Eg. rewrite (push_at dbg (ve_var e) LL G f _ El) by apply headers_for_request_length.
-    intros H; inversion H; subst; clear H. cbn [fst].
     assert (Ht : headers_for_request (vr_refs (ve_var e)) r = own r) by (rewrite Hrefs, Hkp; reflexivity).
-    split; [|rewrite Ht; reflexivity].
+    rewrite Eg. cbv zeta.
+    destruct (wants_cache cache_on (rq_method r) f && (negb (f_spref f =? SP_QUERY) || key_has_query k)
+              && negb (kvarn_none f)); cbn [andb].
+    2:{ intros H; inversion H; subst; clear H. cbn [fst]. rewrite Ht. split; reflexivity. }
+    rewrite (push_at dbg (ve_var e) LL G f _ El) by apply headers_for_request_length.
+    destruct (N.of_nat (length (f_body f)) <? size_limit).
+    2:{ intros H; inversion H; subst; clear H. cbn [fst]. rewrite Ht. split; reflexivity. }
+    intros H; inversion H; subst; clear H. cbn [fst].
+    split; [rewrite Ht; reflexivity|].
     left. eexists k, _. split; [exact Hk|]. split; [rewrite pc_find_insert, key_eqb_refl; reflexivity|].
     cbn [ve_var ve_created]. split; [|exact Hd].
     set (v' := mkVaried (vr_refs (ve_var e)) (LL ++ (f, headers_for_request (vr_refs (ve_var e)) r) :: G)).
